@@ -101,7 +101,7 @@ pub async fn generate(ctx: &mut Ctx<'_>, seed: u64, thorough: bool) {
             note.push("role-unlisted".into());
             nontrivial = true;
         }
-        let cyc = ACycle { limits: ALimits::default(), safe: true, now: 0, server, shipped: Some(root) };
+        let cyc = ACycle { limits: ALimits::default(), safe: true, now: 0, server, shipped: Some(root), reads: vec![] };
         let class = format!("mix-cs{}-len{}-hash{}", cs as u8, pin.length as u8, pin.hash as u8);
         ctx.emit(&mut world, &class, &[cyc], nontrivial, json!(note)).await;
     }
